@@ -836,7 +836,9 @@ func (o *ImmutableArray) BinaryOp(op token.Token, rhs Object) (Object, error) {
 	if rhs, ok := rhs.(*ImmutableArray); ok {
 		switch op {
 		case token.Add:
-			return &Array{Value: append(o.Value, rhs.Value...)}, nil
+			elems := make([]Object, 0, len(o.Value)+len(rhs.Value))
+			elems = append(elems, o.Value...)
+			return &Array{Value: append(elems, rhs.Value...)}, nil
 		}
 	}
 	return nil, ErrInvalidOperator
